@@ -1,6 +1,7 @@
 SPECIFICATION FairSpec
 CONSTANT MaxV = 4
 CONSTANT M0s = {2, 3, 4}
+CONSTANT MaxUses = 1
 CONSTANT PinnedDedup = FALSE
 PROPERTY C09_Terminates
 CHECK_DEADLOCK FALSE
